@@ -1760,9 +1760,11 @@ for _cls in (CliStream, PerFileStream, AnnotateStream, WalkRaceStream, Terminati
     bounded(_cls)
 
 
+import c16t2      # noqa: E402  (needs the definitions above)
+
 PROPERTY = Property(
     pid="C16",
-    streams=[ShapeStream(), TreeStream(), BytesStream(), CliStream(), PerFileStream(), AnnotateStream(), AnnotateShapesStream(), TemplateStream(), WalkRaceStream(), TerminationStream()],
+    streams=[ShapeStream(), TreeStream(), BytesStream(), CliStream(), PerFileStream(), AnnotateStream(), AnnotateShapesStream(), TemplateStream(), WalkRaceStream(), TerminationStream()] + c16t2.STREAMS,
     assumptions=[
         "tomlkit, python-debian and the UTF-8 codec are oracles of the model: the outcomes 'not TOML' (TOMLKitError), 'not a dep5 file' "
         "(debian Error / ValueError) and 'not UTF-8' (UnicodeDecodeError) are enumerated inputs of Model.tomlFromFile / dep5FromFile; that "
